@@ -31,7 +31,10 @@ def subset_filter_role(ctx, b):
             el = el[1]
         same = e == el
         body_ok = _is_self_field_path(_unenv(g[2]), 'body')
-        kin_ok = util.is_self_field(_unenv(g[4]), 'kinematics')
+        g4 = g[4]
+        if mir.contains(g4, lambda y: y[0] == 'call' and 'KinematicsWithShape::' in y[1]):
+            g4 = strip(util.inline_calls(ctx.prog, g4, depth=1))         # an accessor of the wrapper reads as what it returns
+        kin_ok = util.is_self_field(_unenv(g4), 'kinematics')
         return False if (same and body_ok and kin_ok) else None
     ok, desc = util.subsequence_filter(ctx.prog, b, 2, pred)
     return [] if ok else [desc]
@@ -346,7 +349,9 @@ def shape_wrappers(ctx, prog):
         ok = False
         found = [show(x, maxdepth=4) for x in rv]
         if len(rv) == 1 and isinstance(rv[0], tuple) and rv[0][0] == 'call' and rv[0][1].endswith('RobotBody::' + name):
+            # (an accessor of the wrapper such as `fn plain_kinematics(&self) -> &dyn Kinematics` reads as what it returns)
             args = [strip(a) for a in rv[0][2:]]
+            args = [strip(util.inline_calls(prog, a, depth=1)) if mir.contains(a, lambda y: y[0] == 'call' and 'KinematicsWithShape::' in y[1]) else a for a in args]
             recv_ok = util.is_self_field(args[0], 'body')
             rest = args[1:]
             kin = [k for k, a in enumerate(rest) if mir.contains(a, lambda y: y[0] == 'fld' and y[2] == 'kinematics' and util.is_param(strip(y[1]), 1))]
